@@ -2,6 +2,7 @@ SPECIFICATION Spec
 CONSTANTS
   MaxLen = 3
   EmitReplay = FALSE
+  RowMode = FALSE
   UseCorpus = FALSE
 INVARIANTS NoPanicState SpansOk AcceptSound AcceptComplete LinesOk PrintBehaviour
 CHECK_DEADLOCK FALSE
